@@ -617,11 +617,45 @@ PROPS["C10"] = dict(
     note="Model-store based and bounded; fidelity guarded by executing sampled paths and all counterexamples on the real CLI + SQLite with the crash driver.",
 )
 
+PROPS["C03"] = dict(
+    _lt,
+    runs={
+        "quick": [
+            dict(harness="VerifHarness_C03_names", reach=["recovered"]),
+            dict(harness="VerifHarness_C03_checks3", reach=["recovered"], flags=["-domain"]),
+            dict(harness="VerifHarness_C03_gen3", reach=["recovered"], flags=["-domain"]),
+        ],
+        "thorough": [
+            dict(harness="VerifHarness_C03_names", reach=["recovered"]),
+            dict(harness="VerifHarness_C03_checks2", reach=["recovered"], cross=False),
+            dict(harness="VerifHarness_C03_checks3", reach=["recovered"]),
+            dict(harness="VerifHarness_C03_gen3", reach=["recovered"]),
+        ],
+    },
+    bounds={
+        "quick": "SQLite CREATE TABLE emitted by the planner for a table with primary key (AUTOINCREMENT or not), a foreign key (named with a symbolic \\w "
+                 "character, or unnamed), one CHECK constraint (named or not) whose expression ends in 3 symbolic bytes over {a,b,c,1,space,(,),',\",`,>,+,_}, "
+                 "a STORED generated column whose expression ends in 3 such bytes; expressions assumed balanced in parentheses and quotes",
+        "thorough": "same plus two CHECK constraints with 2 symbolic bytes each",
+    },
+    assumptions=[
+        "SQLite stores the CREATE statement verbatim in sqlite_master.sql (documented behaviour); what pragma-based inspection returns (columns, "
+        "primary key, foreign key with numeric id) is constructed by the harness",
+        "expressions are balanced in parentheses and quotes (SQLite rejects anything else) and contain no top-level comma",
+    ],
+    outside="pragma-based inspection on a real engine, HCL marshal/eval (MarshalHCL, EvalHCLBytes), SQL export through cmdlog, statements rewritten by "
+            "ALTER TABLE, determinism of a second inspection, other dialects",
+    claim="For every expression text within the bounds, the CHECK constraints (names and expressions), the foreign-key constraint name, the "
+          "AUTOINCREMENT flag and the generated-column expression recovered by fillChecks / fillConstName / autoinc / setGenExpr / scanExpr from the "
+          "statement the planner emitted equal what was emitted.",
+    note="Statement-text slice of C03 only. Bounded; the regular expressions of inspect.go run on the engine's symbolic matcher.",
+)
+
 NOT_APPLICABLE = {
     "C01": "needs a real SQLite engine executing the planned SQL and pragma-based inspection; neither cgo code nor SQLite's DDL "
            "semantics can be encoded by an SSA-level symbolic executor, and a hand-written catalogue model would verify the model, not Atlas "
            "(the reachable code-level pieces are claimed under C02, C03, C05)",
 }
-for _p in ["C02","C03","C04","C05","C06","C07","C10","C11","C13","C14","C15","C16","C17","C18","C19","C20"]:
+for _p in ["C10","C11","C13","C14","C15","C16","C17","C18","C19","C20"]:
     NOT_APPLICABLE.setdefault(_p, "check not built yet in this session (planned, see DESIGN.md section 5)")
 
